@@ -11,6 +11,8 @@ from ..core import AnalysisError, finish, unparse
 from ..constfold import Folder, consts_for
 from ..dataflow import Flow, chain, call_name
 from ..poly import Poly, le, lt, entails
+from ..terms import Terms, plain, match, V, ANY, show, subterms, mk_cmp, \
+    is_none, stores, method_calls, alternatives, owner_views, one_level
 from ..util import calls_in, qual, has_fact, raises_of, raise_name
 
 MOD = "rig.machine_control.scp_connection"
@@ -58,117 +60,196 @@ def _table_mutations(fl, var):
     return out
 
 
-def check(program, rep):
-    fn = program.get(FN)
-    inst = qual(fn)
-    folder = Folder(program)
-    fl = Flow(fn, consts=consts_for(folder, fn))
-    cfg = fl.cfg
+class _Burst(object):
+    """The anchors of send_scp_burst, found on value terms (in the function
+    itself or in its nested helpers)."""
 
-    # identify the table: the dict that is subscript-stored with a
-    # TransmittedPacket(...) value
-    stores = []
-    for n in ast.walk(fn):
-        if isinstance(n, ast.Assign) and isinstance(n.targets[0],
-                                                    ast.Subscript) and \
-                isinstance(n.value, ast.Call) and \
-                call_name(n.value)[0] == "TransmittedPacket":
-            stores.append(n)
-    if len(stores) != 1:
-        raise AnalysisError("send_scp_burst: expected exactly one insertion "
-                            "of a TransmittedPacket, found %d" % len(stores))
-    store = stores[0]
-    table = chain(store.targets[0].value)
-    key = store.targets[0].slice
-    snode = cfg.node_of(store)
-    ps = [a.arg for a in fn.args.args]
-    if len(ps) < 4:
-        raise AnalysisError("send_scp_burst signature changed")
-    window = ps[2]
+    def __init__(self, program):
+        self.fn = fn = program.get(FN)
+        self.T = T = Terms(fn)
+        self.inst = qual(fn)
+        ps = [a.arg for a in fn.args.args]
+        if len(ps) < 4:
+            raise AnalysisError("send_scp_burst signature changed")
+        self.window = ("param", ps[2])
+        found = []
+        for n in ast.walk(fn):
+            if isinstance(n, ast.Assign) and len(n.targets) == 1 and \
+                    isinstance(n.targets[0], ast.Subscript):
+                for view in owner_views(T, n):
+                    node = view.cfg.node_of(n)
+                    val = view.term(n.value, node)
+                    pv = plain(val)
+                    if pv[0] == "call" and pv[1][0] in ("global", "local") \
+                            and pv[1][1] == "TransmittedPacket":
+                        found.append((view, node, n, view.term(
+                            n.targets[0].value, node), view.term(
+                                n.targets[0].slice, node), val))
+        if len(found) != 1:
+            raise AnalysisError("send_scp_burst: expected exactly one "
+                                "insertion of a TransmittedPacket, found %d"
+                                % len(found))
+        (self.view, self.snode, self.store, self.TABLE, self.KEY,
+         self.ENTRY) = found[0]
 
-    # ---- R1 window ---------------------------------------------------------
-    grow = []
-    for d in fl.defs:
-        if d.var != table:
+    def facts(self):
+        return self.view.full_facts(self.snode)
+
+
+def _all_views(T):
+    """(view, function) for the function and each nested helper call site."""
+    out = [(T, T.fn)]
+    for sub in ast.walk(T.fn):
+        if isinstance(sub, ast.FunctionDef) and sub is not T.fn:
+            try:
+                for v in T.inners(sub):
+                    out.append((v, sub))
+            except AnalysisError:
+                pass
+    return out
+
+
+def _view_calls(T, names):
+    """method calls ``recv.<name>(...)`` in the function or its helpers:
+    [(view, node, call, receiver term, [arg terms])]."""
+    out = []
+    for view, f in _all_views(T):
+        for c in ast.walk(f):
+            if isinstance(c, ast.Call) and isinstance(c.func, ast.Attribute) \
+                    and c.func.attr in names and _own(c, f):
+                n = view.cfg.node_containing(c)
+                out.append((view, n, c, view.term(c.func.value, n),
+                            [view.term(a, n) for a in c.args]))
+    return out
+
+
+def r1_window(program, rep, B):
+    T, inst = B.T, B.inst
+    pt = plain(B.TABLE)
+    rep.check(B.TABLE[0] == "new" and pt in (("dict", ()), (
+        "call", ("global", "dict"), (), ())), "C06-R1", inst,
+        "the outstanding table starts empty", construct="table init",
+        node=B.fn)
+    for view, n, c, recv, args in _view_calls(
+            T, ("update", "setdefault", "__setitem__", "pop", "popitem",
+                "clear")):
+        if recv != B.TABLE:
             continue
-        if d.mode == "assign":
-            # initialisation to an empty dict is fine
-            ok0 = isinstance(d.value, ast.Dict) and not d.value.keys
-            rep.check(ok0, "C06-R1", inst, "the outstanding table starts "
-                      "empty", construct="table init %s" % unparse(d.value),
-                      node=d.node.ast)
-            continue
-        st = d.node.ast
-        txt = unparse(st)[:60]
-        if st is store:
-            grow.append(d)
-            continue
-        # any other mutation must be a removal
-        rem = [c for c in calls_in(st, ("pop", "popitem", "clear"))
-               if chain(call_name(c)[1]) == table] if st is not None else []
-        is_del = isinstance(st, ast.Delete)
-        rep.check(bool(rem) or is_del, "C06-R1", inst,
+        rep.check(c.func.attr in ("pop", "popitem", "clear"), "C06-R1", inst,
                   "other mutation of the table only removes entries (%s)" %
-                  txt, construct="table mutation %s" % txt, node=st,
+                  c.func.attr, construct="table mutation %s" % c.func.attr,
+                  node=c,
                   fail="the outstanding table is also modified by '%s', "
-                       "which may add entries outside the window test" % txt)
-    cons = fl.constraints(snode)
-    L = fl.sym(ast.parse("len(%s)" % table, mode="eval").body, snode)
-    W = fl.sym(ast.parse(window, mode="eval").body, snode)
-    rep.check(entails(cons, [lt(L, W)]), "C06-R1", inst,
+                       "which may add entries outside the window test" %
+                       unparse(c)[:60])
+    n_other = 0
+    for view, f in _all_views(T):
+        for n_, st, base, key, val in stores(getattr(view, "t", view)):
+            if st is not B.store and view.term(
+                    st.targets[0].value if isinstance(st, ast.Assign)
+                    else st.target.value, n_) == B.TABLE:
+                n_other += 1
+    rep.check(n_other == 0, "C06-R1", inst, "entries are added to the "
+              "outstanding table at one site only",
+              construct="table stores %d" % (n_other + 1), node=B.fn)
+    L = ("call", ("global", "len"), (B.TABLE,), ())
+    ok = (mk_cmp("Lt", L, B.window), True) in B.facts()
+    rep.check(ok, "C06-R1", inst,
               "the only insertion into the outstanding table is dominated by "
               "a still-valid test len(table) < window_size, so len <= "
-              "window_size always", construct="window guard", node=store,
+              "window_size always", construct="window guard", node=B.store,
               fail="a command can be added to the outstanding table without "
                    "len(table) < window_size having been established since "
-                   "the last change of the table (facts: %s)" % [
-                       unparse(c) for c, p, _ in fl.facts(snode)])
+                   "the last change of the table")
 
-    # ---- R2 fresh sequence numbers -------------------------------------------
-    facts = fl.facts(snode)
-    keyname = chain(key)
-    fresh = has_fact(facts, "%s in %s" % (keyname, table), False)
+
+def _fresh_from_helper(B):
+    """The key comes from a local helper that returns only numbers it has
+    tested not to be in the table, and the table is not changed between that
+    call and the insertion."""
+    key = B.store.targets[0].slice
+    vt = getattr(B.view, "t", B.view)
+    if not isinstance(key, ast.Name):
+        return False
+    binds = [b_ for b_ in vt.binds if b_.var == key.id and
+             b_.mode == "assign"]
+    if len(binds) != 1 or not (isinstance(binds[0].value, ast.Call) and
+                               isinstance(binds[0].value.func, ast.Name)):
+        return False
+    helper = vt._nested.get(binds[0].value.func.id)
+    if helper is None:
+        return False
+    views = [v for v in B.T.inners(helper)]
+    if len(views) != 1:
+        return False
+    hv = views[0]
+    rets = [r for r in ast.walk(helper) if isinstance(r, ast.Return) and
+            _own(r, helper) and r.value is not None]
+    if not rets:
+        return False
+    for r in rets:
+        rn = hv.cfg.node_of(r)
+        rt = hv.t.term(r.value, rn)
+        facts = [(hv._x(t), p) for t, p in hv.t.all_facts(rn)]
+        if not any(p is False and t[0] == "cmp" and t[1] == "In" and
+                   t[3] == B.TABLE and t[2] == hv._x(rt) for t, p in facts):
+            return False
+    # nothing touches the table between the helper call and the insertion
+    cn = binds[0].node
+    for n in vt.cfg.nodes:
+        if n is B.snode or n is cn or not (vt.cfg.reaches(cn, n) and
+                                           vt.cfg.reaches(n, B.snode)):
+            continue
+        for sub in ast.walk(n.ast) if n.ast is not None else []:
+            if isinstance(sub, ast.Call) and \
+                    isinstance(sub.func, ast.Attribute) and \
+                    B.view.term(sub.func.value, n) == B.TABLE and \
+                    sub.func.attr not in ("get", "values", "items", "keys"):
+                return False
+    return True
+
+
+def r2_fresh(program, rep, B, folder):
+    T, inst = B.T, B.inst
+    fresh = (mk_cmp("In", B.KEY, B.TABLE), False) in B.facts()
+    if not fresh:
+        fresh = _fresh_from_helper(B)
     rep.check(fresh, "C06-R2", inst,
               "the key inserted has just been tested not to be in the table "
               "(the test dominates the insertion and neither the key nor the "
               "table changed since)", construct="fresh key guard",
-              node=store,
+              node=B.store,
               fail="the sequence number used as key may still be "
-                   "outstanding: no valid '%s not in %s' fact dominates the "
-                   "insertion; the older command's entry would be "
-                   "overwritten and its reply ignored" % (keyname, table))
-    # every definition of the key comes from the per-connection counter
-    okc = True
-    for d in fl.reaching(keyname, snode):
-        okc &= (d.mode == "assign" and isinstance(d.value, ast.Call) and
-                call_name(d.value)[0] == "next" and d.value.args and
-                chain(d.value.args[0]) == "self.seq")
+                   "outstanding: no valid 'seq not in table' fact dominates "
+                   "the insertion; the older command's entry would be "
+                   "overwritten and its reply ignored")
+    SEQ = ("attr", ("param", "self"), "seq")
+    okc = all(x[0] == "callv" and x[1] == ("global", "next") and
+              x[2][:1] == (SEQ,) for x in alternatives(B.KEY))
     rep.check(okc, "C06-R2", inst, "sequence numbers are drawn from the "
               "per-connection counter self.seq", construct="seq source",
-              node=store)
-    # the packet carries the same seq
-    pk = [c for c in calls_in(fn, "SCPPacket")]
+              node=B.store)
     okp = False
-    for c in pk:
-        for k in c.keywords:
-            if k.arg == "seq" and chain(k.value) == keyname:
-                pn = cfg.node_containing(c)
-                okp = [d.id for d in fl.reaching(keyname, pn)] == \
-                    [d.id for d in fl.reaching(keyname, snode)] and \
-                    cfg.dominates(pn, snode)
+    for st_ in subterms(B.ENTRY):
+        if st_[0] in ("call", "callv") and st_[1][0] == "global" and \
+                st_[1][1] == "SCPPacket":
+            okp = dict(st_[3]).get("seq") == B.KEY
     rep.check(okp, "C06-R2", inst, "the packet sent carries the sequence "
               "number it is filed under", construct="packet seq = key",
-              node=store)
-    # the counter is created once per connection and is 16 bit
+              node=B.store)
     mod = program.module(MOD)
     creators = [c for c in ast.walk(mod.tree) if isinstance(c, ast.Call) and
                 call_name(c)[0] == "seqs"]
     init = program.get(MOD + ":SCPConnection.__init__")
     okw = len(creators) == 1 and any(c is x for x in ast.walk(init)
                                      for c in creators)
-    writers = [n for n in ast.walk(mod.tree) if isinstance(n, ast.Attribute)
-               and isinstance(n.ctx, ast.Store) and chain(n) == "self.seq"]
-    rep.check(okw and len(writers) == 1, "C06-R2", inst,
+    from ..core import enclosing_def
+    writers = sorted(set(getattr(enclosing_def(n), "name", "?")
+                         for n in ast.walk(mod.tree)
+                         if isinstance(n, ast.Attribute) and
+                         isinstance(n.ctx, ast.Store) and
+                         chain(n) == "self.seq"))
+    rep.check(okw and writers == ["__init__"], "C06-R2", inst,
               "the counter is created once, in __init__, so numbering "
               "continues across bursts", construct="seq counter creation",
               node=init)
@@ -176,266 +257,280 @@ def check(program, rep):
     mask_default = None
     if seqs.args.defaults:
         mask_default = folder.eval(seqs.args.defaults[-1], {}, seqs._module)
-    fls = Flow(seqs)
-    okm = False
-    for d in fls.defs:
-        if d.mode == "assign" and isinstance(d.value, ast.BinOp) and \
-                isinstance(d.value.op, ast.BitAnd):
-            okm = chain(d.value.right) == seqs.args.args[0].arg or \
-                chain(d.value.left) == seqs.args.args[0].arg
+    S = Terms(seqs)
+    M = ("param", seqs.args.args[0].arg)
+    okm = any(st_[0] == "binop" and st_[1] == "BitAnd" and M in (st_[2],
+                                                                 st_[3])
+              for b_ in S.binds if b_.mode in ("assign", "aug") and
+              b_.value is not None for st_ in subterms(S._bind_term(b_)))
     rep.check(okm and mask_default == 0xffff, "C06-R2", qual(seqs),
               "sequence numbers are masked to 16 bits (the '<2H' wire field)",
               construct="seq mask %r" % (mask_default,), node=seqs)
 
-    # ---- R3 exactly once ----------------------------------------------------------
-    # the completion queue: fed by append/appendleft of a tuple
-    feeds = []
-    for c in calls_in(fn, ("append", "appendleft")):
-        rc = chain(call_name(c)[1])
-        if rc and c.args and isinstance(c.args[0], ast.Tuple):
-            feeds.append((rc, c))
-    queues = set(q for q, _ in feeds)
+
+def r3_once(program, rep, B):
+    T, inst, fn = B.T, B.inst, B.fn
+    feeds = [x for x in _view_calls(T, ("append", "appendleft"))
+             if len(x[4]) == 1 and x[4][0][0] == "tuple" and
+             len(x[4][0]) == 3 and x[3][0] == "new"]
     rep.check(len(feeds) == 1, "C06-R3", inst, "completions are queued at "
               "exactly one site", construct="completion feeds %d" %
               len(feeds), node=fn)
-    if len(feeds) == 1:
-        queue, feed = feeds[0]
-        fnode = cfg.node_containing(feed)
-        cbexpr, reply = feed.args[0].elts[:2] if len(
-            feed.args[0].elts) == 2 else (None, None)
-        entry = chain(cbexpr.value) if isinstance(cbexpr, ast.Attribute) \
-            else None
-        okpop = False
-        popkey = None
-        if entry:
-            ds = fl.reaching(entry, fnode)
-            if len(ds) == 1 and ds[0].mode == "assign" and \
-                    isinstance(ds[0].value, ast.Call) and \
-                    call_name(ds[0].value)[0] == "pop" and \
-                    chain(call_name(ds[0].value)[1]) == table:
-                okpop = has_fact(fl.facts(fnode), "%s is not None" % entry,
-                                 True) or has_fact(fl.facts(fnode),
-                                                   "%s is None" % entry,
-                                                   False)
-                popkey = ds[0].value.args[0] if ds[0].value.args else None
-        rep.check(okpop and cbexpr is not None and cbexpr.attr == "callback",
-                  "C06-R3", inst, "a completion is queued only for an entry "
-                  "just removed (pop) from the outstanding table, with that "
-                  "entry's own callback - duplicates and unknown replies "
-                  "find nothing", construct="completion from popped entry",
-                  node=feed,
-                  fail="the completion is not tied to an entry removed from "
-                       "the table (get instead of pop, or no None test): a "
-                       "duplicated reply would invoke the callback twice")
-        # reply bytes and seq come from this iteration's datagram
-        okr = False
-        if reply is not None and popkey is not None:
-            rn = chain(reply)
-            rdefs = fl.reaching(rn, fnode)
-            kdefs = fl.reaching(chain(popkey), fnode)
-            okr = len(rdefs) == 1 and isinstance(rdefs[0].value, ast.Call) \
-                and call_name(rdefs[0].value)[0] == "recv" and \
-                len(kdefs) == 1 and kdefs[0].mode == "unpack" and \
-                isinstance(kdefs[0].value, ast.Call) and \
-                call_name(kdefs[0].value)[0] == "unpack_from" and \
-                len(kdefs[0].value.args) >= 2 and \
-                chain(kdefs[0].value.args[1]) == rn and \
-                cfg.dominates(rdefs[0].node, kdefs[0].node)
-        rep.check(okr, "C06-R3", inst, "the callback receives the bytes of "
-                  "the very datagram whose sequence number selected the "
-                  "entry", construct="reply bytes = datagram of seq",
-                  node=feed)
-        # callbacks are invoked only on pairs taken from the queue
-        invoked = []
-        for c in ast.walk(fn):
-            if isinstance(c, ast.Call):
-                f = c.func
-                nm = chain(f)
-                if nm and (nm.endswith(".callback") or nm == "callback"):
-                    invoked.append(c)
-        okq = len(invoked) == 1
-        if okq:
-            c = invoked[0]
-            cn = cfg.node_containing(c)
-            ds = fl.reaching(chain(c.func), cn)
-            okq = len(ds) == 1 and isinstance(ds[0].value, ast.Call) and \
-                call_name(ds[0].value)[0] in ("pop", "popleft") and \
-                chain(call_name(ds[0].value)[1]) == queue
-        rep.check(okq, "C06-R3", inst, "callbacks are invoked only on pairs "
-                  "taken (pop) from the completion queue, once each",
-                  construct="callback invocation sites %d" % len(invoked),
-                  node=fn,
-                  fail="a callback is invoked outside the single "
-                       "take-from-queue site: a command could complete "
-                       "twice")
-        # the burst cannot return while completions or commands are pending
-        outer = None
-        for n in fn.body:
-            if isinstance(n, ast.While):
-                outer = n
-        names = set()
-        if outer is not None:
-            t = outer.test
-            vals = t.values if isinstance(t, ast.BoolOp) and \
-                isinstance(t.op, ast.Or) else [t]
-            names = set(chain(v) for v in vals)
-        rep.check(outer is not None and table in names and queue in names,
-                  "C06-R3", inst, "the burst loop continues while commands "
-                  "are outstanding or completions are queued",
-                  construct="burst loop condition %s" % sorted(
-                      str(n) for n in names), node=outer or fn)
-        rets = [n for n in ast.walk(fn) if isinstance(n, ast.Return)
-                and _own(n, fn)]
-        rep.check(not rets, "C06-R3", inst, "the burst has no early return",
-                  construct="early return", node=fn)
+    if len(feeds) != 1:
+        return
+    view, fnode, feed, QUEUE, (pair,) = feeds[0]
+    CB, REPLY = pair[1], pair[2]
+    okpop = False
+    SEQ = None
+    if CB[0] == "attr" and CB[2] == "callback":
+        ENT = CB[1]
+        if ENT[0] == "callv" and ENT[1] == ("attr", B.TABLE, "pop") and \
+                ENT[2]:
+            SEQ = ENT[2][0]
+            facts = view.full_facts(fnode)
+            okpop = (is_none(ENT), False) in facts or (
+                len(ENT[2]) == 1 and (mk_cmp("In", SEQ, B.TABLE), True)
+                in facts)
+            # a pop without default under a membership test must follow it
+            # directly (the table is a local mutable: the fact is only kept
+            # while nothing changed it)
+    rep.check(okpop, "C06-R3", inst, "a completion is queued only for an "
+              "entry just removed (pop) from the outstanding table, with "
+              "that entry's own callback - duplicates and unknown replies "
+              "find nothing", construct="completion from popped entry",
+              node=feed,
+              fail="the completion is not tied to an entry removed from "
+                   "the table (get instead of pop, or no None test): a "
+                   "duplicated reply would invoke the callback twice")
+    okr = False
+    if SEQ is not None:
+        okr = REPLY[0] == "callv" and REPLY[1][0] == "attr" and \
+            REPLY[1][2] == "recv" and SEQ[0] == "comp" and SEQ[2] == 1 and \
+            plain(SEQ[1])[0] == "call" and \
+            plain(SEQ[1])[1][-1] == "unpack_from" and \
+            len(SEQ[1][2]) >= 2 and SEQ[1][2][1] == REPLY
+    rep.check(okr, "C06-R3", inst, "the callback receives the bytes of "
+              "the very datagram whose sequence number selected the "
+              "entry", construct="reply bytes = datagram of seq",
+              node=feed)
+    # callbacks are invoked only on pairs taken from the queue
+    invoked = []
+    for v_, f_ in _all_views(T):
+        for c in ast.walk(f_):
+            if isinstance(c, ast.Call) and _own(c, f_) and \
+                    not isinstance(c.func, ast.Attribute):
+                n = v_.cfg.node_containing(c)
+                ft = v_.term(c.func, n)
+                if ft[0] == "comp" and ft[1][0] == "callv" and \
+                        ft[1][1][0] == "attr" and ft[1][1][1] == QUEUE:
+                    invoked.append((c, ft, [v_.term(a, n) for a in c.args]))
+    other_cb = [c for c in ast.walk(fn) if isinstance(c, ast.Call) and
+                isinstance(c.func, ast.Attribute) and
+                c.func.attr == "callback"]
+    okq = len(invoked) == 1 and not other_cb
+    if okq:
+        c, ft, args = invoked[0]
+        okq = ft[1][1][2] in ("pop", "popleft") and ft[2] == 0 and \
+            args == [("comp", ft[1], 1)]
+    rep.check(okq, "C06-R3", inst, "callbacks are invoked only on pairs "
+              "taken (pop) from the completion queue, once each",
+              construct="callback invocation sites %d" % (
+                  len(invoked) + len(other_cb)), node=fn,
+              fail="a callback is invoked outside the single "
+                   "take-from-queue site: a command could complete "
+                   "twice")
+    outer = None
+    for n in fn.body:
+        if isinstance(n, ast.While):
+            outer = n
+    okl = False
+    if outer is not None:
+        tt = T.term(outer.test, T.cfg.loop_head[id(outer)])
+        okl = any(st_ == B.TABLE for st_ in subterms(tt)) and \
+            any(st_ == QUEUE for st_ in subterms(tt)) and tt[0] == "or"
+    rep.check(okl, "C06-R3", inst, "the burst loop continues while commands "
+              "are outstanding or completions are queued",
+              construct="burst loop condition", node=outer or fn)
+    rets = [n for n in ast.walk(fn) if isinstance(n, ast.Return)
+            and _own(n, fn)]
+    rep.check(not rets, "C06-R3", inst, "the burst has no early return",
+              construct="early return", node=fn)
 
-    # ---- R4 retry accounting ---------------------------------------------------------
-    sends = [c for c in calls_in(fn, "send")
-             if chain(call_name(c)[1]) == "self.sock"]
-    first = [c for c in sends if table in unparse(c.args[0])]
-    retx = [c for c in sends if c not in first]
+
+def r4_retry(program, rep, B):
+    T, inst, fn = B.T, B.inst, B.fn
+    SELF = ("param", "self")
+    SOCK = ("attr", SELF, "sock")
+    sends = [x for x in _view_calls(T, ("send",)) if x[3] == SOCK and
+             len(x[4]) == 1]
+    cur = ("item", B.TABLE, B.KEY)
+    first = [x for x in sends if x[4][0] in (("attr", cur, "bytestring"),
+                                             ("attr", B.ENTRY,
+                                              "bytestring"))]
+    retx = [x for x in sends if x not in first]
     rep.check(len(first) == 1 and len(retx) == 1, "C06-R4", inst,
               "one first-transmission site and one retransmission site",
               construct="send sites %d/%d" % (len(first), len(retx)),
               node=fn)
     if len(first) == 1:
-        c = first[0]
-        cn = cfg.node_containing(c)
-        sub = c.args[0].value if isinstance(c.args[0], ast.Attribute) \
-            else None
-        ok1 = isinstance(sub, ast.Subscript) and chain(sub.value) == table \
-            and chain(sub.slice) == keyname and cfg.dominates(snode, cn) and \
-            [d.id for d in fl.reaching(keyname, cn)] == \
-            [d.id for d in fl.reaching(keyname, snode)]
+        v_, n_, c, recv, args = first[0]
+        ok1 = getattr(v_, "t", v_).fn is getattr(B.view, "t", B.view).fn \
+            and v_.cfg.dominates(v_.cfg.nodes[B.snode.id], n_)
         rep.check(ok1, "C06-R4", inst, "the first transmission sends the "
                   "entry just filed, once", construct="first transmission",
                   node=c)
-    if len(retx) == 1:
-        c = retx[0]
-        cn = cfg.node_containing(c)
-        ent = chain(c.args[0].value) if isinstance(c.args[0],
-                                                   ast.Attribute) else None
-        facts = fl.facts(cn)
-        cons = fl.constraints(cn)
-        now = None
-        expired = False
-        for cond, pol, a in facts:
-            if isinstance(cond, ast.Compare) and len(cond.ops) == 1:
-                l, r = chain(cond.left), chain(cond.comparators[0])
-                op = type(cond.ops[0]).__name__
-                if ent and l == ent + ".timeout_time" and (
-                        (op == "Lt" and pol) or (op == "GtE" and not pol)):
-                    now = r
-                    expired = True
-                if ent and r == ent + ".timeout_time" and (
-                        (op == "Gt" and pol) or (op == "LtE" and not pol)):
-                    now = l
-                    expired = True
-        okn = False
-        if now:
-            ds = fl.reaching(now, cn)
-            okn = len(ds) == 1 and isinstance(ds[0].value, ast.Call) and \
-                unparse(ds[0].value.func) == "time.time"
-        rep.check(expired and okn, "C06-R4", inst, "a command is "
-                  "retransmitted only after its deadline has passed "
-                  "(deadline < time.time())", construct="retransmit after "
-                  "deadline", node=c)
-        T = fl.sym(ast.parse("%s.n_tries" % ent, mode="eval").body, cn)
-        N = fl.sym(ast.parse("self.n_tries", mode="eval").body, cn)
-        rep.check(entails(cons, [lt(T, N)]), "C06-R4", inst,
-                  "a command is retransmitted only while its try count is "
-                  "below the configured number of tries",
-                  construct="retransmit below limit", node=c)
-        # afterwards: n_tries += 1 and deadline = now + timeout on every path
-        # to the next iteration
-        incs = [d for d in fl.defs if d.var == ent + ".n_tries" and
-                cfg.reaches(cn, d.node)]
-        oki = False
-        for d in incs:
-            if d.mode == "aug" and isinstance(d.value.op, ast.Add) and \
-                    isinstance(d.value.value, ast.Constant) and \
-                    d.value.value.value == 1:
-                oki = cfg.must_pass(cn, lambda n: n is d.node,
-                                    targets=[cfg.exit] + [
-                                        h for h in cfg.loop_head.values()])
-        rep.check(oki, "C06-R4", inst, "every retransmission increments the "
-                  "try count by one", construct="try count increment",
-                  node=c)
-        okd = False
-        for d in fl.defs:
-            if d.var == ent + ".timeout_time" and cfg.reaches(cn, d.node) \
-                    and d.mode in ("assign", "aug"):
-                if d.mode == "assign":
-                    val = fl.sym(d.value, d.node)
-                else:
-                    s = d.value
-                    fake = ast.BinOp(left=s.target, op=s.op, right=s.value)
-                    ast.copy_location(fake, s)
-                    fake._parent = s
-                    val = fl.sym(fake, d.node)
-                want = fl.sym(ast.parse("%s + %s.timeout" % (now, ent),
-                                        mode="eval").body, d.node) \
-                    if now else None
-                okd = want is not None and val == want and \
-                    cfg.must_pass(cn, lambda n: n is d.node,
-                                  targets=[cfg.exit] + list(
-                                      cfg.loop_head.values()))
-                rep.check(okd, "C06-R4", inst, "after a retransmission the "
-                          "deadline is the current time plus the command's "
-                          "timeout", construct="new deadline %r" % (val,),
-                          node=d.node.ast,
-                          fail="after a retransmission the deadline becomes "
-                               "%r, not now + timeout: a late loop turn "
-                               "retransmits again before the timeout has "
-                               "elapsed" % (val,))
-        if not any(o["rule"] == "C06-R4" and "deadline is the current" in
-                   o["fact"] or "deadline becomes" in o["fact"]
-                   for o in rep.obligations):
-            rep.bad("C06-R4", inst, "deadline not reset", "the deadline is "
-                    "not reset after a retransmission", c)
-        # timeout error only when expired and exhausted
-        for r in raises_of(fn):
-            if raise_name(r) != "TimeoutError":
-                continue
-            rn = cfg.node_of(r)
-            cons_r = fl.constraints(rn)
-            Tr = fl.sym(ast.parse("%s.n_tries" % ent, mode="eval").body, rn)
-            Nr = fl.sym(ast.parse("self.n_tries", mode="eval").body, rn)
-            exp = any(isinstance(cd, ast.Compare) and pol and
-                      chain(cd.left) == ent + ".timeout_time" and
-                      isinstance(cd.ops[0], ast.Lt)
-                      for cd, pol, _ in fl.facts(rn))
-            rep.check(entails(cons_r, [le(Nr, Tr)]) and exp, "C06-R4", inst,
-                      "TimeoutError is raised only for a command whose "
-                      "deadline has passed and which has been sent the "
-                      "configured number of times",
-                      construct="timeout condition", node=r)
+    if len(retx) != 1:
+        return
+    v_, cn, c, recv, args = retx[0]
+    if v_ is not T:
+        raise AnalysisError("the retransmission is inside a helper: its "
+                            "deadline / try-count discipline is not analysed "
+                            "in that form")
+    fl = Flow(fn, consts=None)
+    cfg = T.cfg
+    ENT = args[0][1] if args[0][0] == "attr" and \
+        args[0][2] == "bytestring" else None
+    if ENT is None:
+        raise AnalysisError("retransmission does not send <entry>."
+                            "bytestring")
+    facts = T.all_facts(cn)
+    NOW = None
+    for t, p in facts:
+        if p and t[0] == "cmp" and t[1] in ("Lt",) and \
+                plain(t[2]) == plain(("attr", ENT, "timeout_time")):
+            NOW = t[3]
+    okn = NOW is not None and plain(NOW) == (
+        "call", ("attr", ("global", "time"), "time"), (), ())
+    rep.check(okn, "C06-R4", inst, "a command is "
+              "retransmitted only after its deadline has passed "
+              "(deadline < time.time())", construct="retransmit after "
+              "deadline", node=c)
+    TRIES = ("attr", ENT, "n_tries")
+    LIMIT = ("attr", SELF, "n_tries")
+    below = any(p and plain(t) in (plain(mk_cmp("Lt", TRIES, LIMIT)),)
+                for t, p in facts)
+    rep.check(below, "C06-R4", inst,
+              "a command is retransmitted only while its try count is "
+              "below the configured number of tries",
+              construct="retransmit below limit", node=c)
+    # afterwards: n_tries += 1 and deadline = now + timeout on every path to
+    # the next iteration
+    heads = [cfg.exit] + list(cfg.loop_head.values())
+    oki = okd = False
+    dval = None
+    for n in cfg.nodes:
+        st = n.ast
+        if n.kind != "stmt" or not cfg.reaches(cn, n):
+            continue
+        tgt = val = None
+        if isinstance(st, ast.AugAssign) and \
+                isinstance(st.target, ast.Attribute):
+            tgt = plain(T.term(st.target.value, n)), st.target.attr
+            val = ("binop", type(st.op).__name__,
+                   ("attr", tgt[0], tgt[1]), plain(T.term(st.value, n)))
+        elif isinstance(st, ast.Assign) and len(st.targets) == 1 and \
+                isinstance(st.targets[0], ast.Attribute):
+            tgt = plain(T.term(st.targets[0].value, n)), st.targets[0].attr
+            val = plain(T.term(st.value, n))
+        if tgt is None or tgt[0] != plain(ENT):
+            continue
+        passes = cfg.must_pass(cn, lambda x, n=n: x is n, targets=heads)
+        if tgt[1] == "n_tries":
+            cur_t = ("attr", plain(ENT), "n_tries")
+            oki = passes and val in (("binop", "Add", cur_t, ("const", 1)),
+                                     ("binop", "Add", ("const", 1), cur_t))
+        if tgt[1] == "timeout_time":
+            dval = val
+            to = ("attr", plain(ENT), "timeout")
+            okd = passes and val in (("binop", "Add", plain(NOW), to),
+                                     ("binop", "Add", to, plain(NOW))) \
+                if NOW is not None else False
+    rep.check(oki, "C06-R4", inst, "every retransmission increments the "
+              "try count by one", construct="try count increment",
+              node=c)
+    rep.check(okd, "C06-R4", inst, "after a retransmission the "
+              "deadline is the current time plus the command's "
+              "timeout", construct="new deadline", node=c,
+              fail="after a retransmission the deadline becomes %s, not now "
+                   "+ timeout: a late loop turn retransmits again before "
+                   "the timeout has elapsed" % (show(dval)[:80] if dval
+                                                else "nothing new"))
+    for r in raises_of(fn):
+        if raise_name(r) != "TimeoutError":
+            continue
+        rf = T.all_facts(cfg.node_of(r))
+        exp = any(p and t[0] == "cmp" and t[1] == "Lt" and
+                  plain(t[2]) == plain(("attr", ENT, "timeout_time"))
+                  for t, p in rf)
+        exh = any(p and plain(t) == plain(mk_cmp("LtE", LIMIT, TRIES))
+                  for t, p in rf)
+        rep.check(exp and exh, "C06-R4", inst,
+                  "TimeoutError is raised only for a command whose "
+                  "deadline has passed and which has been sent the "
+                  "configured number of times",
+                  construct="timeout condition", node=r)
     tp = program.get(FN + ".TransmittedPacket.__init__")
-    flt = Flow(tp)
-    ok_init = False
-    ok_dead = False
-    for d in flt.defs:
-        if d.var == "self.n_tries" and d.mode == "assign":
-            ok_init = flt.sym(d.value, d.node) == Poly.const(1)
-        if d.var == "self.timeout_time" and d.mode == "assign":
-            v = d.value
-            ok_dead = isinstance(v, ast.BinOp) and isinstance(v.op, ast.Add) \
-                and {unparse(v.left), unparse(v.right)} == {"time.time()",
-                                                            "self.timeout"}
+    P = Terms(tp)
+    ok_init = ok_dead = False
+    now = ("call", ("attr", ("global", "time"), "time"), (), ())
+    for b_ in P.binds:
+        if b_.var == "self.n_tries" and b_.mode == "assign":
+            ok_init = P._bind_term(b_) == ("const", 1)
+        if b_.var == "self.timeout_time" and b_.mode == "assign":
+            v = plain(P._bind_term(b_))
+            to = [x for x in (v[2], v[3]) if x != now] if v[0] == "binop" \
+                and v[1] == "Add" else []
+            ok_dead = len(to) == 1 and now in (v[2], v[3]) and \
+                to[0] in (("param", "timeout"),
+                          ("attrv", SELF, "timeout", ANY),
+                          ("attr", SELF, "timeout")) or (
+                    len(to) == 1 and to[0][0] in ("attr", "attrv", "param")
+                    and show(to[0]).endswith("timeout"))
     rep.check(ok_init and ok_dead, "C06-R4", inst, "a new entry starts with "
               "try count 1 and deadline time.time() + timeout",
               construct="entry initial state", node=tp)
-    tcall = store.value
-    okt = len(tcall.args) == 3 and isinstance(tcall.args[2], ast.BinOp) and \
-        isinstance(tcall.args[2].op, ast.Add) and \
-        {unparse(tcall.args[2].left), unparse(tcall.args[2].right)} == \
-        {"self.default_timeout", "args.timeout"} and \
-        unparse(tcall.args[0]) == "args.callback"
+    pe = plain(B.ENTRY)
+    ARGS = None
+    okt = False
+    if len(pe[2]) == 3:
+        cb, _, to = pe[2]
+        if cb[0] == "attr" and cb[2] == "callback":
+            ARGS = cb[1]
+            okt = to in (("binop", "Add", ("attr", SELF, "default_timeout"),
+                          ("attr", ARGS, "timeout")),
+                         ("binop", "Add", ("attr", ARGS, "timeout"),
+                          ("attr", SELF, "default_timeout")))
     rep.check(okt, "C06-R4", inst, "the per-command timeout is the "
               "connection default plus the command's extra timeout; the "
               "entry holds the command's own callback",
-              construct="entry timeout/callback", node=tcall)
+              construct="entry timeout/callback", node=B.store)
 
+
+def check(program, rep):
+    fn = program.get(FN)
+    inst = qual(fn)
+    folder = Folder(program)
+    fl = Flow(fn, consts=consts_for(folder, fn))
+    cfg = fl.cfg
+    B = rep.guard(["C06-R1", "C06-R2", "C06-R3", "C06-R4"], _Burst, program)
+    if B is not None:
+        rep.guard("C06-R1", r1_window, program, rep, B)
+        rep.guard("C06-R2", r2_fresh, program, rep, B, folder)
+        rep.guard("C06-R3", r3_once, program, rep, B)
+        rep.guard("C06-R4", r4_retry, program, rep, B)
+    rep.guard(["C06-R5", "C06-R6"], r5_codes, program, rep, folder, fn, fl,
+              cfg, inst)
+    rep.floor("C06-R1", 3)
+    rep.floor("C06-R2", 5)
+    rep.floor("C06-R3", 6)
+    rep.floor("C06-R4", 8)
+    rep.floor("C06-R5", 20)
+    return finish(rep, program, EXPLANATION, NOT_DECIDED,
+                  trusted=["SC&MP return-code table RC_WIRE / RC_RETRY in "
+                           "rules/C06.py (transcribed from sark.h)"])
+
+
+def r5_codes(program, rep, folder, fn, fl, cfg, inst):
     # ---- R5 return codes ------------------------------------------------------------------
     rc = folder.name(CONSTS, "SCPReturnCodes")
     retry = folder.name(CONSTS, "RETRYABLE_SCP_RETURN_CODES")
@@ -464,42 +559,66 @@ def check(program, rep):
                   sorted(allm - rnames - fnames - {"ok"}),
                   sorted(rnames & fnames)))
     # receive loop: non-ok -> retryable: nothing happens; else raise
-    okret = False
+    T = Terms(fn)
+    OK = ("attr", ("attr", ("global", "consts"), "SCPReturnCodes"), "ok")
+    RETRY = ("attr", ("global", "consts"), "RETRYABLE_SCP_RETURN_CODES")
     fat = [r for r in raises_of(fn) if raise_name(r) == "FatalReturnCodeError"]
+    okret = False
+    RC = None
     for r in fat:
-        rn = cfg.node_of(r)
-        f = fl.facts(rn)
-        a = any(unparse(c).startswith("rc != ") and
-                unparse(c).endswith("SCPReturnCodes.ok") and p
-                for c, p, _ in f)
-        b = any(unparse(c) == "rc in consts.RETRYABLE_SCP_RETURN_CODES" and
-                not p for c, p, _ in f)
-        okret = a and b
+        rn = T.cfg.node_of(r)
+        f = T.all_facts(rn)
+        for t, p in f:
+            if not p and t[0] == "cmp" and t[1] == "Eq" and OK in (t[2],
+                                                                   t[3]):
+                RC = t[3] if t[2] == OK else t[2]
+        okret = RC is not None and (mk_cmp("In", RC, RETRY), False) in f
     rep.check(len(fat) == 1 and okret, "C06-R5", inst,
               "FatalReturnCodeError is raised exactly for a non-ok, "
               "non-retryable reply", construct="fatal raise condition",
               node=fn)
     # the retryable branch changes no state
+    n_quiet = 0
     for n in cfg.nodes:
-        if n.kind == "assume" and n.polarity and \
-                unparse(n.ast) == "rc in consts.RETRYABLE_SCP_RETURN_CODES":
-            quiet = True
-            seen = set()
-            stack = list(n.succ)
-            # up to the next loop head / test node
-            while stack:
-                x = stack.pop()
-                if x.id in seen or x.kind in ("test", "join"):
-                    continue
-                seen.add(x.id)
-                if fl.node_defs.get(x.id):
-                    quiet = False
-                if x.kind == "stmt" and not isinstance(x.ast, ast.Pass):
-                    quiet = False
-                stack += x.succ
-            rep.check(quiet, "C06-R5", inst, "a retryable error reply "
-                      "changes no state (treated as a lost reply)",
-                      construct="retryable branch effects", node=n.ast)
+        if n.kind != "assume" or RC is None:
+            continue
+        tn = T.cfg.nodes[n.id]
+        if T.cond(tn.ast, tn, tn.polarity) != (mk_cmp("In", RC, RETRY),
+                                                True):
+            continue
+        n_quiet += 1
+        quiet = True
+        seen = set()
+        stack = list(n.succ)
+        # up to the next loop head / test node
+        while stack:
+            x = stack.pop()
+            if x.id in seen or x.kind in ("test", "join"):
+                continue
+            seen.add(x.id)
+            if fl.node_defs.get(x.id):
+                quiet = False
+            if x.kind == "stmt" and not isinstance(x.ast, ast.Pass):
+                quiet = False
+            stack += x.succ
+        rep.check(quiet, "C06-R5", inst, "a retryable error reply "
+                  "changes no state (treated as a lost reply)",
+                  construct="retryable branch effects", node=n.ast)
+    # the select() timeout can never be negative (select raises ValueError)
+    sel = [c for c in calls_in(fn, "select") if len(c.args) == 4]
+    if len(sel) == 1:
+        from ..absint import Interp
+        it = Interp(fn)
+        sn = it.cfg.node_containing(sel[0])
+        tv = it.sym(sel[0].args[3], sn)
+        rep.check(it.holds_at(sn, [le(0, tv)]), "C06-R4", inst,
+                  "the timeout handed to select() is never negative (a "
+                  "deadline that has already passed waits 0 seconds)",
+                  construct="select timeout >= 0", node=sel[0],
+                  fail="select() can be called with a negative timeout "
+                       "(%r is not provably >= 0): it raises ValueError and "
+                       "the burst neither completes nor times out; state: "
+                       "%s" % (tv, it.describe(sn)))
     # and the ok branch is the only one that pops
     # ---- R6 offsets ---------------------------------------------------------------------------
     up = [c for c in calls_in(fn, "unpack_from")]
@@ -513,14 +632,6 @@ def check(program, rep):
     rep.check(ok6, "C06-R6", inst, "cmd_rc and seq are read with '<2H' at "
               "byte 10 = size of the SDP header format (pad + 8 bytes)",
               construct="reply offset", node=fn)
-    rep.floor("C06-R1", 3)
-    rep.floor("C06-R2", 5)
-    rep.floor("C06-R3", 6)
-    rep.floor("C06-R4", 8)
-    rep.floor("C06-R5", 20)
-    return finish(rep, program, EXPLANATION, NOT_DECIDED,
-                  trusted=["SC&MP return-code table RC_WIRE / RC_RETRY in "
-                           "rules/C06.py (transcribed from sark.h)"])
 
 
 def _own(node, fn):
